@@ -76,3 +76,87 @@ def join_cookies(hs):
     cookies = [v for n, v in hs if n == b'cookie']
     rest = [(n, v) for n, v in hs if n != b'cookie']
     return rest + ([(b'cookie', b'; '.join(cookies))] if cookies else [])
+
+
+# --------------------------------------------------------------------------------------------------------------------
+# outbound (C14)
+# --------------------------------------------------------------------------------------------------------------------
+SENSITIVE = (b'authorization', b'proxy-authorization')
+
+
+def to_bytes(x):
+    return x if isinstance(x, bytes) else x.encode('utf-8')
+
+
+def normalise_out(headers):
+    """what 'lowercase, trimmed names and trimmed values, no connection-specific fields' means for a list of
+    (name, value) pairs of bytes or str: -> list of (name bytes, value bytes, must_be_never_indexed)"""
+    out = []
+    for n, v in headers:
+        n2 = n.lower().strip()
+        v2 = v.strip()
+        nb, vb = to_bytes(n2), to_bytes(v2)
+        if nb in CONNECTION_SPECIFIC:
+            continue
+        out.append((nb, vb, nb in SENSITIVE or (nb == b'cookie' and len(vb) < 20)))
+    return out
+
+
+def field_problem_out(n, v):
+    """the per-field promises of normalisation"""
+    if any(0x41 <= c <= 0x5a for c in n):
+        return 'uppercase-name'
+    if n and (n[0] in WS or n[-1] in WS):
+        return 'name-whitespace'
+    if v and (v[0] in WS or v[-1] in WS):
+        return 'value-whitespace'
+    if n in CONNECTION_SPECIFIC:
+        return 'connection-specific'
+    return None
+
+
+def block_problem_out(hs, kind):
+    """the promises of outbound validation: TE, connection-specific fields, pseudo-header rules, :authority/Host, :path"""
+    for n, v in hs:
+        if n in CONNECTION_SPECIFIC:
+            return 'connection-specific'
+        if n == b'te' and v.lower() != b'trailers':
+            return 'te'
+    seen = []
+    regular = False
+    for n, v in hs:
+        if n[:1] == b':':
+            if regular:
+                return 'pseudo-after-regular'
+            if n in seen:
+                return 'pseudo-twice'
+            if n not in REQUEST_PSEUDO + RESPONSE_PSEUDO:
+                return 'unknown-pseudo'
+            seen.append(n)
+        else:
+            regular = True
+    if kind == 'trailers':
+        return 'pseudo-in-trailers' if seen else None
+    if kind in ('response', 'informational'):
+        if b':status' not in seen:
+            return 'no-status'
+        if any(n in REQUEST_PSEUDO for n in seen):
+            return 'request-pseudo-in-response'
+        return None
+    for need in (b':method', b':scheme', b':path'):
+        if need not in seen:
+            return 'missing' + need.decode()
+    if b':status' in seen:
+        return 'status-in-request'
+    method = [v for n, v in hs if n == b':method'][-1]
+    if b':protocol' in seen and method != b'CONNECT':
+        return 'protocol-without-connect'
+    auth = [v for n, v in hs if n == b':authority']
+    host = [v for n, v in hs if n == b'host']
+    if not auth and not host:
+        return 'no-authority-no-host'
+    if auth and host and auth[-1] != host[-1]:
+        return 'authority-host-disagree'
+    if [v for n, v in hs if n == b':path'][-1] == b'':
+        return 'empty-path'
+    return None
